@@ -1793,16 +1793,9 @@ int cgio_read_block_data_type (int cgio_num, double id,
 
     if (cgio->type == CGIO_FILE_ADF || cgio->type == CGIO_FILE_ADF2) {
         /* ADF returns the block in the data type of the node: as for
-           cgio_read_all_data_type the memory type has to be that type */
-        if (m_data_type != NULL) {
-            char f_data_type[ADF_DATA_TYPE_LENGTH+1];
-            ADF_Get_Data_Type(id, f_data_type, &ierr);
-            if (ierr > 0) return set_error(ierr);
-            if (strncmp(m_data_type, f_data_type, 2) != 0 ||
-                (m_data_type[2] == '\0' && f_data_type[2] != '\0'))
-                return set_error(INVALID_DATA_TYPE);
-        }
-        ADF_Read_Block_Data(id, b_start, b_end, (char *)data, &ierr);
+           cgio_read_all_data_type the memory type has to be that type
+           (ADF checks it against the node's whole type) */
+        ADF_Read_Block_Data(id, b_start, b_end, m_data_type, (char *)data, &ierr);
         if (ierr > 0) return set_error(ierr);
     }
 #if CG_BUILD_HDF5
